@@ -18,7 +18,7 @@ RULE = (
     "of item X through SectionParser(title, version)(**read_header_line(line, section)) - exactly what the header loop "
     "runs per line; every string of length <= 3 under mnemonics {X, API, UWI, api, Uwi} in 4 section kinds and as a "
     "~Curves value through lasio.read; the values of NULL, STRT, STOP and STEP (which read() itself inspects) one file per string; a list of known traps (inf, nan, hex, overflow, non-ASCII digits, 2^63 edge, "
-    "grouped digits); oracle: hand-written scanner (no regex, no float()) classifying definitely-literal / "
+    "grouped digits, literals of every length 18..45 and of 300+ digits); the lasio.read family also under read_policy=() / null_policy='none' and read_policy='comma-delimiter'; all points after a process prelude (many other files, incl. LAS 3.0, read first); oracle: hand-written scanner (no regex, no float()) classifying definitely-literal / "
     "definitely-not / ambiguous ('5.', '.5', '5,', ',5'); non-trivial = distinct stripped non-empty strings"
 )
 ASSUMPTIONS = [
